@@ -524,6 +524,8 @@ func runC07(r *Run) {
 		}
 	})
 
+	r.rule("R10", "two interface values are compared with == only where one operand is known to hold a comparable dynamic type: otherwise equal uncomparable dynamic types (maps, slices) panic at run time (every function of the module; E3)", func() { interfaceComparisonRule(r) })
+	r.rule("R9", "a constant-index access x[c] on a byte sequence is reachable only through an edge on which len(x) > c (every function of the module; E1)", func() { constIndexRule(r) })
 	r.rule("R6", "offset accesses are not evaluated ahead of the guard that bounds them (contradiction rule over every function of the module)", func() { offsetGuardRule(r) })
 
 	if r.Tier == "thorough" {
